@@ -717,6 +717,11 @@ class ParallelProcess(Process):
             'name': process.name,
             '_parallel': True,
         })
+        # A process wrapped after its schema was assigned (e.g. one that
+        # arrives through a _generate or _divide update) brings it along.
+        if process.schema is not None:
+            self._schema = process.schema
+            self._schema_set = True
         self.profile = profile
         self._stats_objs = stats_objs
         assert not self.profile or self._stats_objs is not None
